@@ -159,6 +159,8 @@ def err_name(e):
 
 def line(op):
     k = op[0]
+    if k == "RAW":
+        return op[1]
     if k == "LM":
         return "\t".join(["LM", op[1], op[2]])
     if k == "SEARCH":
